@@ -826,18 +826,12 @@ func (s *seqRT) ruleStackRerun() {
 			}
 			st = outs[0].St
 			if cc.resume {
-				var stepRef AV
-				for _, e := range st.Events[mark:] {
-					if e.Kind == "store" && e.Target == "c.step" && len(e.Args) == 1 {
-						stepRef = e.Args[0]
-					}
-				}
-				obj := st.Obj(stepRef)
-				if obj == nil || closureField(obj) == "" {
+				next := storedResumption(st, st.Events[mark:])
+				if next == nil {
 					failed = "the value does not suspend by storing a step with a resumption"
 					break
 				}
-				o2 := in.Apply(st, obj.Fields[closureField(obj)], []AV{Sym{Name: "recv"}})
+				o2 := in.Apply(st, next, []AV{Sym{Name: "recv"}})
 				if len(o2) != 1 || o2[0].Panicked {
 					failed = "the resumption is not a single path"
 					break
